@@ -1,7 +1,10 @@
 use crate::engine::Property;
 
+pub mod c01;
+pub mod c02;
 pub mod c03;
 pub mod c04;
+pub mod c06;
 pub mod c07;
 pub mod c08;
 pub mod c09;
@@ -22,6 +25,9 @@ pub mod c32;
 
 pub fn registry() -> Vec<(&'static str, fn() -> Property)> {
     vec![
+        ("C06", c06::property),
+        ("C02", c02::property),
+        ("C01", c01::property),
         ("C36", c36::property),
         ("C23", c23::property),
         ("C19", c19::property),
